@@ -634,6 +634,29 @@ impl Driver for SideEffects {
                 (item, _) => fails.push(bad("wrong-kind", format!("{:?}", item))),
             }
         }
+        // records without a tag are library-synthesised (lowered function-level probes): their
+        // existence is tolerated, but their bodies, too, must be in the encoded module's index
+        // space - the body has to occur, operand for operand, in the encoded target function
+        for rec in by_tag.get(&Vec::<u8>::new()).cloned().unwrap_or_default() {
+            if let Injection::FuncLocProbe { target_fid, body, .. } = rec {
+                if body.is_empty() {
+                    continue;
+                }
+                let Some(f) = dout.funcs.get(*target_fid as usize) else {
+                    fails.push(Fail { sig: "untagged-record:target_fid-out-of-range".into(), detail: format!("target_fid {}", target_fid) });
+                    continue;
+                };
+                let hay: Vec<String> = f.ops.iter().map(|o| dm::subst_op(o, &oids, false)).collect();
+                let needle = body_ids(body);
+                let found = needle.len() <= hay.len() && (0..=hay.len() - needle.len()).any(|i| hay[i..i + needle.len()] == needle[..]);
+                if !found {
+                    fails.push(Fail {
+                        sig: "untagged-record:body-not-in-encoded-function".into(),
+                        detail: format!("untagged probe record on function {}: body {:?} does not occur in the encoded function (wrong index space?)", target_fid, needle),
+                    });
+                }
+            }
+        }
         // no other non-empty tag
         for (tag, recs) in &by_tag {
             if !tag.is_empty() && !items.iter().any(|t| &t.tag == tag) {
